@@ -14,7 +14,8 @@ CHECKS = {
         text="TLC exhausts the implementation-shaped segment builder on every score sequence up to length 5 (quick) / "
              "7 (thorough) over an alphabet that hits the threshold equalities and every (ms,bs), checking the C13 "
              "clauses as an invariant; the same input space is exported by TLC and run through the real factory, and "
-             "TLC evaluates the C13 clauses on every real result (plus thousands of random longer sequences) and "
+             "TLC evaluates the C13 clauses on every real result (plus thousands of random longer sequences, incl. "
+             "one-decimal scores whose only exact ties are cancellations at a run start) and "
              "replays the Impl actions to detect drift between code and spec.",
         design_ref="DESIGN.md section 4 (C13), section 10",
         note="Trusted: TLC, the 60-line Python driver that builds position objects and records index ranges by "
@@ -135,7 +136,8 @@ CHECKS = {
              "HitEnum, pairs, truncated coordinates and lengths, confidence, pair coordinates from the maps); the "
              "harness checks count and order. In addition the whole record space of MC_Xmap (every matching on 4x4 "
              "labels, both strands, single-pair records) is turned into real rows, written by the real writer and "
-             "read back (spec -> code).",
+             "read back (spec -> code); there the read-back is also compared with the values of the row objects "
+             "handed to the writer (read before the file is written).",
         design_ref="DESIGN.md section 4 (C18), section 10",
         note="Record-level model: MC_Xmap.",
     ),
@@ -148,8 +150,9 @@ CHECKS = {
              "queries and every join outcome (C05 file clauses), and the worker's peak selection / best-candidate "
              "choice; end to end the four modes run on generated inputs (peaksCount 1,2,3,5; repetitive references), "
              "a harness Extension records candidates and seed peaks inside the worker, and TLC checks one record per "
-             "query, ascending ids, best-mode coverage, that the first-pass record is a maximal candidate and that "
-             "the refined seeds are the top-peaksCount primary peaks.",
+             "query, ascending ids, best-mode coverage, that a query without a joined record gets in 'best' a record at "
+             "least as confident as each of its pass records, that the first-pass record is a maximal candidate and "
+             "that the refined seeds are the top-peaksCount primary peaks.",
         design_ref="DESIGN.md section 4 (C05), section 10",
         note="The correlation that produces the peaks is numerical and not modelled; its outcome is observed.",
     ),
@@ -161,7 +164,8 @@ CHECKS = {
         text="MC_Worker shows that the repaired worker never aborts when no peak is selected (and that the pinned "
              "one did); degenerate but valid CMAP sets (1-2 label molecules, duplicate positions, queries longer "
              "than every reference, 1-2 label references, inputs without alignable queries, dense/sparse molecules) "
-             "run in five modes with six parameter vectors, in process and through the CLI: any exception or "
+             "run in five modes with ten parameter vectors, in process and through the CLI, to files (with / without "
+             "extension), to the standard output (pipe / redirected) and to a device: any exception or "
              "non-zero exit is a violation, every file must be well formed and readable by the project's reader, "
              "and TLC checks that the records of the ordinary queries equal those of a run without the degenerate "
              "molecules.",
@@ -175,7 +179,7 @@ CHECKS = {
         text="TLC exhausts the dispatch for two queries (C08 file relations hold for every join outcome); end to "
              "end, inputs built to be aligned in two passes (split / swapped / duplicated windows, indels, chimeras, "
              "half-junk) run in best/separate/joined/all with four maxDifference values and TLC checks file "
-             "equalities, AlignedRest flags, the accounting of single-pass records, that every joined record has a "
+             "equalities, AlignedRest flags, the accounting of single-pass records (un-joined ones listed once), that every joined record has a "
              "first- and a second-pass part on the same reference and strand within maxDifference, that its pairs "
              "are a subset of the union and equal to it when the union is a valid matching; the dispatch is replayed "
              "from all._1/all._2 for drift. The join itself (Join.tla) is model-checked on pairs of lattice rows and the "
@@ -192,7 +196,8 @@ CHECKS = {
         text="TLC proves on small lattices that an exact copy whose seed lies within maxD of the true diagonal (spacing "
              "> 2 maxD) is aligned to exactly the true pairs on both strands; the property itself is decided on "
              "planted inputs in the quantifier's domain (single reference, spacing >= 2 kb, mean >= 9 kb, windows of "
-             "15-45 interior labels, both strands, offsets and trailing lengths, decimals) run through the real "
+             "15-45 interior labels, both strands, offsets and trailing lengths, decimals, label-dense stretches, "
+             "segmental duplications with a diverged copy) run through the real "
              "pipeline with default parameters in every output mode, TLC checking reference, strand, exact pairs, "
              "offsets <= 200 bp and HitEnum nM.",
         design_ref="DESIGN.md section 4 (C06), section 6, section 10",
@@ -208,8 +213,9 @@ CHECKS = {
              "shows that what reaches the files is schedule independent while the source tags are not (named "
              "deviation); TLC enumerates the feasible completion orders for 6 tasks / 3 workers and a harness "
              "Extension sleeping inside the workers steers the real pool into them; the unmodified CLI runs with "
-             "several -c values and repetitions; TLC compares all digests and checks the recorded executions against "
-             "the Pool model.",
+             "several -c values and repetitions, and the process that ran the steered schedules aligns against another "
+             "reference file with old and new worker counts; TLC compares all digests and checks the recorded "
+             "executions against the Pool model.",
         design_ref="DESIGN.md section 4 (C09), section 10",
         note="Header lines echoing arguments, host and absolute paths are excluded from the byte comparison.",
     ),
@@ -220,8 +226,8 @@ CHECKS = {
         text="The model lets any subset of tasks run in any order with the shared counter and checks that a task's "
              "yielded record is a function of the task; end to end, each input is run in full, with queries removed "
              "and reordered, with CMAP rows shuffled, with references reordered, with -qId/-rId and on physically "
-             "restricted files, and TLC compares every record field (XmapEntryID renumbered only where the query "
-             "set differs).",
+             "restricted files, single molecules alone (every fourth input with consecutive ids beyond 2^53), and TLC "
+             "compares every record field (XmapEntryID renumbered only where the query set differs).",
         design_ref="DESIGN.md section 4 (C10), section 10",
         note="Assumes no exact score ties between references (random references).",
     ),
@@ -233,7 +239,8 @@ CHECKS = {
              "for every small lattice input and checks that the rows are mirror images; with the pinned reverse-"
              "strand join score it produces an on-lattice counter-example. End to end, lattice CMAP sets (step 1400 "
              "bp = lcm of both resolutions, maxPairDistance < step/2) contain every query together with its mirror "
-             "image and TLC compares the two 'separate'-mode records.",
+             "image (incl. inverted repeats, short contigs and decoy loci with strong seeds but few pairs) and TLC "
+             "compares the two 'separate'-mode records.",
         design_ref="DESIGN.md section 4 (C11), section 10",
         note="Default resolutions; the symmetry of binning relies on lattice coordinates as the property states.",
     ),
@@ -253,7 +260,8 @@ CHECKS = {
         technique="TLC model checking of Compare.tla (dict construction, combination of query sources, counts) + TLC "
                   "batch validation of the real AlignmentComparer on (A,B), (B,A), (A,A)",
         text="TLC exhausts pairs of small alignment sets (duplicate keys, empty / duplicated-query pair lists, both "
-             "flags) against the counting, swap and self-comparison clauses; the same sets and random larger ones go "
+             "flags) against the counting, swap and self-comparison clauses; the same sets and random larger ones (some "
+             "pair lists repeat a pair) go "
              "through the real comparer in three arrangements and TLC checks the partition of keys, ranges, "
              "reflexivity and swap symmetry, and compares rows with the model.",
         design_ref="DESIGN.md section 4 (C19), section 10",
@@ -265,7 +273,8 @@ CHECKS = {
                   "the real cluster_indels / write_indel_file / both look_for_indels_in_breakage",
         text="TLC exhausts sorted lists of <=4 calls on two chromosomes against the conservation clauses; the same "
              "lists (scaled to the real blur) and random ones go through the real cluster_indels and write_indel_file "
-             "(file parsed independently); synthetic alignments with one break point go through both finders and TLC "
+             "(file parsed independently; a share of the list objects is clustered / written a second time and judged "
+             "against the same calls); synthetic alignments with one break point go through both finders and TLC "
              "checks Length and type of every emitted call (one trace line per finder invocation: calls must stem from "
              "the alignment fed). sv/molecule_indels.run is also driven end to end on the joined / first / second pass "
              "files the real COMA writes: every un-merged call must carry the coordinates of two consecutive aligned "
